@@ -395,10 +395,12 @@ func (sr *SelectRelation) Materialize(aggRunner *AggRunner, catDir *catalog.Dire
 
 					if sp.ContentsEnum.IsSet(EQUALITY) {
 						eqval, _ := io.GetValueAsInt64(sp.equal)
+						if name == "Epoch" {
+							eqval = convertUnitToNanosec(eqval)
+						}
 						for i, val := range col {
 							// need to consider "Nanoseconds" column value
 							if name == "Epoch" {
-								eqval = convertUnitToNanosec(eqval)
 								val = convertUnitToNanosec(val)
 							}
 							if nanosecs != nil {
@@ -411,10 +413,12 @@ func (sr *SelectRelation) Materialize(aggRunner *AggRunner, catDir *catalog.Dire
 					}
 					if sp.ContentsEnum.IsSet(MINBOUND) {
 						minval, _ := io.GetValueAsInt64(sp.min)
+						if name == "Epoch" {
+							minval = convertUnitToNanosec(minval)
+						}
 						for i, val := range col {
 							// need to consider "Nanoseconds" column value
 							if name == "Epoch" {
-								minval = convertUnitToNanosec(minval)
 								val = convertUnitToNanosec(val)
 							}
 							if nanosecs != nil {
@@ -434,10 +438,12 @@ func (sr *SelectRelation) Materialize(aggRunner *AggRunner, catDir *catalog.Dire
 					}
 					if sp.ContentsEnum.IsSet(MAXBOUND) {
 						maxval, _ := io.GetValueAsInt64(sp.max)
+						if name == "Epoch" {
+							maxval = convertUnitToNanosec(maxval)
+						}
 						for i, val := range col {
 							// need to consider "Nanoseconds" column value
 							if name == "Epoch" {
-								maxval = convertUnitToNanosec(maxval)
 								val = convertUnitToNanosec(val)
 							}
 							if nanosecs != nil {
